@@ -5,6 +5,7 @@ go 1.23.0
 require (
 	github.com/dcaiafa/lox v0.0.0
 	github.com/dcaiafa/loxlex v0.5.0
+	golang.org/x/tools v0.33.0
 )
 
 require (
@@ -12,7 +13,6 @@ require (
 	github.com/CloudyKit/jet/v6 v6.3.1 // indirect
 	golang.org/x/mod v0.24.0 // indirect
 	golang.org/x/sync v0.14.0 // indirect
-	golang.org/x/tools v0.33.0 // indirect
 )
 
 replace github.com/dcaiafa/lox => /repo
